@@ -536,7 +536,26 @@ def r14_record_completeness(chk, rule='C03.R14', fields=None):
     chk.floor(rule, 60 if not fields else 10, 'components and stores')
 
 
+
+def r14_declared_names(chk):
+    """The JSON document names every symbol as the MIB declares it, up to the one documented substitution (hyphen ->
+    underscore).  IntermediateCodeGen.transOpers produces both the record key and the `name` member, so whatever else
+    it does to a name (a keyword prefix, case mapping, truncation) shows in the document."""
+    model = chk.model
+    o, fn = model.cls(INTER, 'IntermediateCodeGen').find_method('transOpers')
+    chk.doc('C03.R14', 'IntermediateCodeGen.transOpers(symbol) returns symbol with "-" replaced by "_" and nothing else: '
+                       'a single return of <param>.replace("-", "_") (or "_".join(<param>.split("-"))); no branch, no '
+                       'prefix, no other transformation of the declared name')
+    param = fn.args.args[-1].arg
+    body = [st for st in fn.body if not (isinstance(st, ast.Expr) and isinstance(st.value, ast.Constant))]
+    ok = len(body) == 1 and isinstance(body[0], ast.Return) and body[0].value is not None and \
+        norm(body[0].value) in ("%s.replace('-', '_')" % param, "'_'.join(%s.split('-'))" % param)
+    chk.ob('C03.R14', 'IntermediateCodeGen.transOpers', ok, where(o.mod, fn),
+           'transOpers is `%s`: names in the JSON document (record keys, `name` members, object references) would '
+           'differ from the declared names by more than the hyphen substitution' % '; '.join(norm(s)[:60] for s in body))
+
+
 RULES = [r1_kinds, r2_one_registration, r3_classes, r4_field_provenance, r5_emission, r6_transopers_siblings,
          r7_json_document, r8_nodetype, r9_revision_time, r10_per_module_state, r11_argument_agreement,
          r12_fields_not_gated_by_text_switch, r13_collectors,
-         r14_record_completeness]
+         r14_record_completeness, r14_declared_names]
